@@ -231,14 +231,15 @@ TEXTS['C19'] = {
             "moment the temporary file is gone and, if no exception is recorded, the destination was published by rename with "
             "all jobs' bytes written; a published destination always holds all jobs' bytes (no partial file after a failure); "
             "an exception once recorded stays, so after Ctrl-C (cancel all in progress) every unfinished download carries one "
-            "for ever. Partial: 'shutdown waits for all downloads' is proved as the guard (shutdown returns only after the "
-            "submitter and all workers took their shutdown signal); that every download is then done (a FIFO-queue argument) is "
-            "checked by the oracle on every run, not proved. Trace validation: the real TransferMonitor, submitter, workers, "
+            "for ever; and whenever shutdown() has returned every submitted download is done (FIFO-queue invariant: jobs "
+            "precede shutdown signals, the submitter exits after every request, a worker exits only when no job is left). "
+            "Not a theorem: that shutdown eventually returns (absence of deadlock is the scheduler's deadlock detection on every "
+            "run). Trace validation: the real TransferMonitor, submitter, workers, "
             "downloader and futures run in-process under the scheduler and every label they produce is replayed on the model.",
     'note': COMMON_NOTE + "Real processes, multiprocessing queues and the manager proxy are replaced by scheduler threads, FIFO queues "
             "and a yielding proxy: a crash of a worker process, pickling, and OS-level queue behaviour are not covered. "
             "posix_fallocate(fd, 0, 0) fails on this platform, so empty objects fail in the submitter (a failure, not a false success).",
-    'technique': "Lean 4 proof (25-clause invariant over all interleavings of the process-pool protocol) + trace validation of the real classes under a deterministic scheduler",
+    'technique': "Lean 4 proof (25-clause counting invariant + FIFO-queue invariant over all interleavings of the process-pool protocol) + trace validation of the real classes under a deterministic scheduler",
 }
 
 TEXTS['C20'] = {
